@@ -37,3 +37,23 @@ TABLES = {
     "tight": {"C": 2, "N": 0, "O": 1, "F": 1, "S": 3, "N+1": 1, "O-1": 0, "H": 1, "B": 1, "?": 1},
     "wide": {"C": 9, "N": 12, "O": 3, "F": 2, "S": 10, "N+1": 5, "O-1": 2, "H": 1, "Fe": 9, "?": 12},
 }
+
+# large pools from which every run draws an additional random alphabet (VERIF_SEED): widens coverage over time
+DEC_POOL = sorted(set(
+    [a for v in DEC.values() for a in v if a != "."] + IDX +
+    ["[#C]", "[#N]", "[=N+1]", "[N-1]", "[O+1]", "[S+1]", "[P-1]", "[B-1]", "[C-1]", "[Cl]", "[Br]", "[I]", "[Si]", "[Se]",
+     "[Na]", "[Mg+2]", "[Al]", "[13C]", "[2H]", "[C@]", "[C@@]", "[C@H1]", "[N@+1]", "[/N]", "[\\O]", "[=CH1]", "[#CH0]",
+     "[NH1]", "[NH2+1]", "[OH1]", "[SH1]", "[PH1]", "[BH2]", "[CH2]", "[CH1-1]", "[Fe+2]", "[Cu+1]", "[Zn]", "[U]",
+     "[Branch3]", "[=Branch3]", "[#Branch2]", "[#Branch3]", "[Ring3]", "[=Ring2]", "[=Ring3]", "[#Ring2]", "[#Ring3]",
+     "[-\\Ring1]", "[/-Ring1]", "[//Ring2]", "[\\\\Ring1]", "[/\\Ring3]", "[\\-Ring2]", "[epsilon]", "[nop]",
+     "[Xx]", "[C+0]", "[CH10]", "[=Ring0]", "[Branch]", "[c]", "[C@@@]", "[12]", "[+1]", "[C+]", "[Cl2]"]))
+
+ENC_POOL = sorted(set(
+    ["C", "N", "O", "S", "P", "F", "Cl", "Br", "I", "B", "c", "n", "o", "s", "p", "b",
+     "=C", "#C", "=N", "#N", "=O", "=S", "-C", ":c", "/C", "\\C", "/N", "\\O", "=c", "-c", "-n",
+     "(", ")", ".", "1", "2", "3", "=1", "#1", "-1", ":1", "/1", "\\1", "%10", "%11", "=2",
+     "[CH3]", "[CH2]", "[CH]", "[C]", "[13C]", "[13CH3]", "[2H]", "[H]", "[N+]", "[NH4+]", "[NH3+]", "[O-]", "[OH-]", "[S-]",
+     "[C@H]", "[C@@H]", "[C@]", "[C@@]", "[N@+]", "[S@]", "[P@@]", "[Fe+2]", "[Fe++]", "[Cu+]", "[Na+]", "[Cl-]", "[Se]", "[Si]",
+     "[nH]", "[n+]", "[nH+]", "[o+]", "[s+]", "[se]", "[te]", "[as]", "[b-]", "[cH-]", "[c-]", "[c]", "[n]", "[15n]", "[n:1]", "[p]",
+     "[c+]", "[cH+]", "[n-]", "[si]", "[O+]", "[OH+]", "[C-]", "[CH2-]", "[C+]", "[B-]", "[P+]", "[S+]", "[I+]", "[IH2]",
+     "=[N+]", "=[O+]", "#[C-]", "/[C@H]", "\\[C@@H]", "=[Se]", "[Xx]", "[C", "*", "$C", "[C@@@]", "[CH10]", "%1", "%", "A"]))
